@@ -18,7 +18,16 @@ RULE = ("cases: random rooted trees 2..6 nodes (chains/stars/spiders/uniform), r
         "Hermitian TTNOs, 2 consecutive steps, truncation grid (max_bond_dim in {1,2,3,inf} x rel_tol x total_tol x "
         "sum mode x renorm) plus truncation disabled; two-node cases with initial bond 1..4. "
         "non-trivial = distinct (shape, settings, seed) with >= 3 nodes, or a two-node exactness case")
-PARTIAL = ["conservation is decided per run by the dense oracle (abstract flow algebra in Ptn.C06/C07)",
+PARTIAL = ["conservation is decided per run by the dense oracle; proved are the schedule facts (twoSite_defined_iff, "
+           "twoSite_final_centre, two_node_trace, two_node_exact, Ptn.C05.twoSite_edge_total / twoSite_site_total / "
+           "twoSite_sum), the kept-count bounds (kept_bounded, kept_unbounded) and the abstract flow algebra "
+           "(two_half_steps_are_full_step, two_site_update_conserves_norm for an isometric embedding, Ptn.C06.runFlow_*); "
+           "that the library's updates are such flows is not proved",
+           "structure: proved on the C02 structural model under well-formedness and the label invariant "
+           "(Ptn.C06.two_site_update_structure, tdvp_step_structure: root, identifiers, parents kept, the lower node "
+           "becomes the first child of the upper one, every node keeps exactly its open axes for any truncated bond; "
+           "*_structure_partial = the weaker statements without open legs); bond dimensions are inputs of that model "
+           "(compared with the library in the comp stream of C02); bond <= max_bond_dim on the real state is oracle only",
            "SVD contract (isometries, descending non-negative spectrum) is assumed and validated on the resulting tensors"]
 ASSUMPTIONS = ["eigh-based dense propagator as reference for the two-node case"]
 
